@@ -44,3 +44,39 @@ fn c01_boundary_constant_programs_do_not_panic() {
     }
     println!("CASES c01_boundary_programs {cases}");
 }
+
+/// crafted patterns that feed truncated 256-bit constants into usize arithmetic of the lifting passes / rules
+#[test]
+fn c01_crafted_shift_and_offset_patterns() {
+    std::panic::set_hook(Box::new(|_| {}));
+    let mut progs: Vec<(String, Vec<u8>)> = vec![];
+    for shift in [0xffu64, 0x100, 0x101, 0xffff_ffff, u64::MAX - 7, u64::MAX] {
+        for mask in [[0x00u8, 0xff], [0xff, 0x00]] {
+            // CALLDATASIZE PUSH8 shift SHR PUSH2 mask AND PUSH1 0 SSTORE STOP   ((x >> shift) & mask stored)
+            let mut c = vec![0x36, 0x67];
+            c.extend(shift.to_be_bytes());
+            c.push(0x1c);
+            c.push(0x61);
+            c.extend(mask);
+            c.extend([0x16, 0x60, 0x00, 0x55, 0x00]);
+            progs.push((format!("(calldatasize >> {shift:#x}) & {mask:02x?} -> sstore"), c));
+            // same with the value loaded from storage first: PUSH1 0 SLOAD PUSH8 shift SHR PUSH2 mask AND PUSH1 1 SSTORE
+            let mut c = vec![0x60, 0x00, 0x54, 0x67];
+            c.extend(shift.to_be_bytes());
+            c.push(0x1c);
+            c.push(0x61);
+            c.extend(mask);
+            c.extend([0x16, 0x60, 0x01, 0x55, 0x00]);
+            progs.push((format!("(sload(0) >> {shift:#x}) & {mask:02x?} -> sstore"), c));
+        }
+    }
+    let n = progs.len();
+    for (name, code) in progs {
+        for perm in [false, true] {
+            if let Out::Panic = analyze(&code, perm) {
+                witness("C01", "analyze.panic.shifted_mask", format!("{name}: {code:02x?} permissive={perm}"), "PANIC".into(), "layout or error".into());
+            }
+        }
+    }
+    println!("CASES c01_crafted {n}");
+}
